@@ -154,6 +154,7 @@ def check_chain(fx, rep, crate, cfg):
             seen_pol.add(pol)
             val = 0
             unknown = False
+            flag_terms = []
             if aggr:
                 b0, i0, s0 = aggr[0]
                 fields = s0['rv'].get('fields') or []
@@ -179,7 +180,12 @@ def check_chain(fx, rep, crate, cfg):
                         if fct and fct[0] == 'int':
                             val += coeff * fct[1]
                         else:
-                            unknown = True
+                            # the initial value is an expression of the flag (usize::from(!call.oneway())): evaluated per polarity below
+                            fe = sym.expr(crate, body, op)
+                            if eval_flag_expr(fe, True) is not None and eval_flag_expr(fe, False) is not None:
+                                flag_terms.append((coeff, fe))
+                            else:
+                                unknown = True
             else:
                 for m in passed:
                     if m.startswith('store|'):
@@ -213,6 +219,18 @@ def check_chain(fx, rep, crate, cfg):
                     bad.append({'call_is': pol, 'owed_changes_by': 'flag expression that does not evaluate to 1 / 0'})
                 else:
                     seen_pol.update({'oneway', 'reply'} if pol == 'unknown' else {pol})
+                continue
+            if flag_terms and not unknown:
+                okp = True
+                for ow, w in ((True, 0), (False, 1)):
+                    if pol == 'oneway' and not ow or pol == 'reply' and ow:
+                        continue
+                    if val + sum(c * eval_flag_expr(fe, ow) for c, fe in flag_terms) != w:
+                        okp = False
+                if okp:
+                    seen_pol.update({'oneway', 'reply'} if pol == 'unknown' else {pol})
+                else:
+                    bad.append({'call_is': pol, 'owed_starts_at': 'flag expression that does not evaluate to 1 / 0'})
                 continue
             if unknown or any(val != w for w in want):
                 bad.append({'call_is': pol, 'owed_changes_by' if not aggr else 'owed_starts_at': None if unknown else val})
@@ -394,6 +412,11 @@ def check_stream(fx, rep, crate, cfg):
             if s['rv']['k'] == 'bin':
                 rv = s['rv']
                 e = ('bin', rv['op'], sym.expr(crate, pn, rv['a']), sym.expr(crate, pn, rv['b']))
+            if e and e[0] == 'bin' and e[1] == 'BitOr':
+                # `done |= index >= count`: the old flag can only add to the verdict of the comparison
+                side = [x for x in (e[2], e[3]) if x[0] == 'bin' and x[1] in ('Ge', 'Eq')]
+                other = [x for x in (e[2], e[3]) if _is_field(x, done)]
+                e = side[0] if len(side) == 1 and len(other) == 1 else None
             if e and e[0] == 'bin' and e[1] in ('Ge', 'Eq'):
                 names = {x[1][-1] for x in (e[2], e[3]) if x[0] in ('field', 'tuplefield') and isinstance(x[1], tuple)}
                 tr_a = e[2]
@@ -473,10 +496,52 @@ def check_stream(fx, rep, crate, cfg):
                 only_via_ne = not any(x in C.reachable_without_edge(pn, ok_t, (swb, ne_edge)) for x in inc_blocks)
                 det.update({'increments_when_not_continuing': inc_on_ne, 'no_increment_when_continuing': no_inc_on_eq, 'no_other_way_to_the_increment': only_via_ne})
                 ok = some_true and inc_on_ne and no_inc_on_eq and only_via_ne
+    if cont and not ok and 'compared_with' not in det:
+        # pattern form: `match reply.continues() { Some(true) => .., _ => .. }` / `matches!(reply.continues(), Some(true))`: a switch on the
+        # discriminant of the returned Option, then a switch on the bool payload of its Some
+        cb, ct = cont[0]
+        dl = ct['dest']['l']
+        d_sw = p_sw = None
+        for s2 in sorted(pn.reachable(cb)):
+            if pn.is_cleanup(s2) or pn.term(s2)['k'] != 'switch':
+                continue
+            si = pn.switch_info(s2) or {}
+            q = op_place(pn.term(s2)['op'])
+            if si.get('kind') == 'discr' and si['place']['l'] == dl and not si['place'].get('p') and d_sw is None:
+                d_sw = (s2, si)
+            elif pn.term(s2).get('op_ty') == 'bool' and p_sw is None:
+                tr = pn.trace(pn.term(s2)['op'])
+                pl = tr.get('place') if tr.get('kind') == 'place' else q
+                pr = (pl or {}).get('p') or []
+                if pl and pl['l'] == dl and len(pr) == 2 and isinstance(pr[0], dict) and pr[0].get('dc') == 'Some' and isinstance(pr[1], dict) and pr[1].get('f') == 0:
+                    p_sw = (s2, pn.term(s2))
+        if d_sw and p_sw and pn.dominates(d_sw[0], p_sw[0]):
+            some_t = d_sw[1]['arms'].get(1, d_sw[1]['otherwise'])
+            arms = {a[0]: a[1] for a in p_sw[1]['arms']}
+            true_t = p_sw[1]['otherwise'] if 0 in arms else arms.get(1)
+            false_t = arms.get(0, p_sw[1]['otherwise'])
+            other_edges = [(d_sw[0], t_) for t_ in set(pn.succ(d_sw[0])) if t_ != some_t] + [(p_sw[0], false_t)]
+            if true_t is not None and true_t != false_t and p_sw[0] in pn.reachable(some_t):
+                inc_on_ne = all(not (rets & pn.reachable(t_, avoid=inc_blocks)) for _, t_ in other_edges)
+                no_inc_on_eq = not any(x in pn.reachable(true_t, avoid={d_sw[0]}) for x in inc_blocks)
+                seen, work = set(), [ok_t]
+                while work:
+                    x = work.pop()
+                    if x in seen:
+                        continue
+                    seen.add(x)
+                    for s_ in pn.succ(x):
+                        if (x, s_) in other_edges:
+                            continue
+                        work.append(s_)
+                only_via_ne = not any(x in seen for x in inc_blocks)
+                det.update({'idiom': 'match on continues(): Some(true) / other', 'increments_when_not_continuing': inc_on_ne,
+                            'no_increment_when_continuing': no_inc_on_eq, 'no_other_way_to_the_increment': only_via_ne})
+                ok = inc_on_ne and no_inc_on_eq and only_via_ne
     rep.check(ok, 'R06.4', '%s|success-completes-call-unless-continues|%s' % (fk, cfg), C.where(pn, ok_t),
               'a successful reply advances the index exactly when continues() != Some(true)',
               'a successful reply does not advance the completed-call index exactly when Reply::continues() != Some(true) '
-              '(accepted idiom: comparison of continues() with the constant Some(true) by ==/!=)', det)
+              '(accepted idioms: comparison of continues() with the constant Some(true) by ==/!=; a match on continues() whose Some(true) arm is the only one that skips the advance)', det)
     # ---- R06.5 one receive per poll
     inits = [(b, i) for b, i, s in pn.iter_assigns() if s['rv']['k'] == 'aggr' and s['rv'].get('variant') == 'Init' and s['rv'].get('adt', '').startswith('connection::chain::')]
     item_ret = [b for b, i, s in C.aggr_adt_sites(pn, 'task::Poll', 'Ready') if s['place']['l'] == 0 and
